@@ -10,5 +10,6 @@ CONSTANTS
   Questions <- Q0
   AllowEnd = TRUE
   MaxRequery = 0
+  FixCommitState = TRUE
 INVARIANTS TypeOK QuietMeansEncrypted InOrderNoDup AllDelivered SlotsSuffice SlotBound NoSplice
 CHECK_DEADLOCK FALSE
